@@ -353,12 +353,21 @@ func forcedRounds(t *testing.T, w *bufio.Writer) {
 					}
 					gf := &gateFib{FibStrategy: table.FibStrategyTable}
 					table.FibStrategyTable = gf
-					table.VerifResetRib()
+					resetRib()
 					var clock atomic.Int64
 					var recs []rec
 					for _, o := range prologue {
 						inv := clock.Add(1)
-						res := o.run()
+						var res string
+						if !bounded(stuckAfter, func() { res = o.run() }) {
+							fmt.Fprintf(w, "R g%d %s %d 2\n", k, impl, m)
+							for _, r := range recs {
+								fmt.Fprintf(w, "H %d %d %d %s => %s\n", r.g, r.inv, r.resp, r.op.String(), r.res)
+							}
+							fmt.Fprintf(w, "X watchdog: operation [%s] never returned after the history above (a lock is still held: deadlock)\nE\n", o.String())
+							w.Flush()
+							t.Fatalf("forced round %d: %s never returned", k, o.String())
+						}
 						recs = append(recs, rec{0, inv, clock.Add(1), o, res})
 					}
 					gf.arm()
@@ -374,7 +383,9 @@ func forcedRounds(t *testing.T, w *bufio.Writer) {
 					case <-gf.parked:
 					case r1 = <-done1: // op1 never reached the FIB
 						got1 = true
-					case <-time.After(10 * time.Second):
+					case <-time.After(stuckAfter):
+						fmt.Fprintf(w, "R g%d %s %d 2\nX watchdog: operation [%s] neither reached the FIB nor returned (deadlock)\nE\n", k, impl, m, o1.String())
+						w.Flush()
 						t.Fatalf("forced round %d: op1 neither reached the FIB nor returned", k)
 					}
 					parked := !got1
@@ -401,13 +412,14 @@ func forcedRounds(t *testing.T, w *bufio.Writer) {
 							got1 = true
 						case r2 = <-done2:
 							got2 = true
-						case <-time.After(20 * time.Second):
+						case <-time.After(stuckAfter):
 							fmt.Fprintf(w, "R g%d %s %d 2\nX watchdog: forced interleaving %s | %s did not complete (deadlock?)\nE\n", k, impl, m, o1.String(), o2.String())
 							w.Flush()
 							t.Fatalf("forced round %d did not complete (deadlock?)", k)
 						}
 					}
 					recs = append(recs, r1, r2)
+					lastOps = []string{o1.String(), o2.String()}
 					fmt.Fprintf(w, "R g%d %s %d 2\n", k, impl, m)
 					us := make([]string, len(universe))
 					for i, n := range universe {
@@ -417,13 +429,8 @@ func forcedRounds(t *testing.T, w *bufio.Writer) {
 					for _, r := range recs {
 						fmt.Fprintf(w, "H %d %d %d %s => %s\n", r.g, r.inv, r.resp, r.op.String(), r.res)
 					}
-					nh := make([]string, len(universe))
-					st := make([]string, len(universe))
-					for i, n := range universe {
-						nh[i] = nhStr(table.FibStrategyTable.FindNextHopsEnc(n.enc()))
-						st[i] = stratStr(table.FibStrategyTable.FindStrategyEnc(n.enc()))
-					}
-					fmt.Fprintf(w, "F nh %s\nF st %s\nF fib %s\nF sl %s\nF rib %s\nE\n", strings.Join(nh, "|"), strings.Join(st, "|"), fibListing(), stratListing(), ribListing())
+					fmt.Fprint(w, finalObs(universe))
+					fmt.Fprintf(w, "E\n")
 				}
 			}
 		}
@@ -458,6 +465,49 @@ func startForwarder(t *testing.T) {
 		time.Sleep(100 * time.Microsecond)
 	}
 	time.Sleep(2 * time.Millisecond)
+}
+
+// stuckAfter: an operation on the tables that has not returned after this long is reported as stuck (deadlock) and the
+// remaining rounds are abandoned
+const stuckAfter = 4 * time.Second
+
+// lastOps: the operations of the round that just ended (for the report when the RIB turns out to be left locked)
+var (
+	lastOps  []string
+	harnessT *testing.T
+	harnessW *bufio.Writer
+)
+
+// resetRib empties the RIB between rounds; it needs the RIB mutex, so an operation of the previous round that returned
+// with the mutex still held shows up here
+func resetRib() {
+	if bounded(stuckAfter, table.VerifResetRib) {
+		return
+	}
+	fmt.Fprintf(harnessW, "R reset T 1 1\nX watchdog: the RIB mutex is still held after every operation of the previous round has returned (an operation returned without releasing it); last operations: %s\nE\n", strings.Join(lastOps, " | "))
+	harnessW.Flush()
+	harnessT.Fatalf("the RIB mutex is still held after the previous round: %v", lastOps)
+}
+
+// finalObs reads the final tables (lookups over the universe and the three listings).  It needs the tables' locks: if it
+// does not return, an operation of the round returned with a lock still held.
+func finalObs(universe []iname) string {
+	var out string
+	if bounded(stuckAfter, func() {
+		nh := make([]string, len(universe))
+		st := make([]string, len(universe))
+		for i, n := range universe {
+			nh[i] = nhStr(table.FibStrategyTable.FindNextHopsEnc(n.enc()))
+			st[i] = stratStr(table.FibStrategyTable.FindStrategyEnc(n.enc()))
+		}
+		out = fmt.Sprintf("F nh %s\nF st %s\nF fib %s\nF sl %s\nF rib %s\n", strings.Join(nh, "|"), strings.Join(st, "|"), fibListing(), stratListing(), ribListing())
+	}) {
+		return out
+	}
+	fmt.Fprintf(harnessW, "X watchdog: the final tables cannot be read: a table mutex is still held after every operation of the round has returned (an operation returned without releasing it); operations of the round: %s\nE\n", strings.Join(lastOps, " | "))
+	harnessW.Flush()
+	harnessT.Fatalf("a table mutex is still held after the round: %v", lastOps)
+	return ""
 }
 
 // bounded runs f and reports whether it returned within d
@@ -495,7 +545,7 @@ func readvertiseRound(t *testing.T, w *bufio.Writer, round int, impl string, m i
 	do := func(gor int, o op) bool {
 		inv := clock.Add(1)
 		var res string
-		if !bounded(10*time.Second, func() { res = o.run() }) {
+		if !bounded(stuckAfter, func() { res = o.run() }) {
 			mu.Lock()
 			stuck = o.String()
 			mu.Unlock()
@@ -529,6 +579,10 @@ func readvertiseRound(t *testing.T, w *bufio.Writer, round int, impl string, m i
 		}
 		wg.Wait()
 	}
+	lastOps = lastOps[:0]
+	for _, r := range recs {
+		lastOps = append(lastOps, r.op.String())
+	}
 	fmt.Fprintf(w, "R a%d %s %d 4\n", round, impl, m)
 	if stuck != "" {
 		fmt.Fprintf(w, "X watchdog: RIB operation [%s] with NLSR readvertising on never returned (deadlock: the RIB mutex stays held)\nE\n", stuck)
@@ -543,13 +597,8 @@ func readvertiseRound(t *testing.T, w *bufio.Writer, round int, impl string, m i
 	for _, r := range recs {
 		fmt.Fprintf(w, "H %d %d %d %s => %s\n", r.g, r.inv, r.resp, r.op.String(), r.res)
 	}
-	nh := make([]string, len(universe))
-	st := make([]string, len(universe))
-	for i, n := range universe {
-		nh[i] = nhStr(table.FibStrategyTable.FindNextHopsEnc(n.enc()))
-		st[i] = stratStr(table.FibStrategyTable.FindStrategyEnc(n.enc()))
-	}
-	fmt.Fprintf(w, "F nh %s\nF st %s\nF fib %s\nF sl %s\nF rib %s\nE\n", strings.Join(nh, "|"), strings.Join(st, "|"), fibListing(), stratListing(), ribListing())
+	fmt.Fprint(w, finalObs(universe))
+	fmt.Fprintf(w, "E\n")
 }
 
 func mkInterest(name enc.Name, inFace uint64, nonce uint64) *defn.Pkt {
@@ -570,7 +619,7 @@ func mkInterest(name enc.Name, inFace uint64, nonce uint64) *defn.Pkt {
 // A panic in the pipeline is what ends the daemon.
 func forwardingRound(t *testing.T, w *bufio.Writer, round int, g *gen) {
 	table.CreateFIBTable("nametree")
-	table.VerifResetRib()
+	resetRib()
 	panics := map[string]int{}
 	var pmu sync.Mutex
 	nonce := uint64(round) << 32
@@ -697,7 +746,7 @@ func listingRound(t *testing.T, w *bufio.Writer, round int, impl string) {
 	go func() { wg.Wait(); close(done) }()
 	select {
 	case <-done:
-	case <-time.After(20 * time.Second):
+	case <-time.After(stuckAfter):
 		fmt.Fprintf(w, "R l%d %s 1 6\nX watchdog: listing round did not complete (deadlock?)\nE\n", round, impl)
 		w.Flush()
 		t.Fatalf("listing round %d did not complete", round)
@@ -877,6 +926,7 @@ func TestConc(t *testing.T) {
 	w := bufio.NewWriterSize(f, 1<<20)
 	defer w.Flush()
 	g := &gen{r: rand.New(rand.NewSource(seed))}
+	harnessT, harnessW = t, w
 	if os.Getenv("VERIF_NOFORCED") == "" {
 		forcedRounds(t, w)
 	}
@@ -887,7 +937,7 @@ func TestConc(t *testing.T) {
 		if round%5 == 4 {
 			// face-table round: recorded small ones and heavy ones alternate
 			table.CreateFIBTable("nametree")
-			table.VerifResetRib()
+			resetRib()
 			faceRound(w, round, g, round%10 == 9)
 			continue
 		}
@@ -900,7 +950,7 @@ func TestConc(t *testing.T) {
 		} else {
 			table.CreateFIBTable("nametree")
 		}
-		table.VerifResetRib()
+		resetRib()
 		if round%7 == 6 {
 			listingRound(t, w, round, impl)
 			continue
@@ -944,6 +994,7 @@ func TestConc(t *testing.T) {
 		}
 		var clock atomic.Int64
 		recs := make([][]rec, ngor)
+		current := make([]atomic.Value, ngor) // the operation each goroutine is in (for the watchdog's report)
 		var wg sync.WaitGroup
 		var anomalies sync.Map
 		startGate := make(chan struct{})
@@ -959,9 +1010,11 @@ func TestConc(t *testing.T) {
 								anomalies.Store(fmt.Sprintf("panic in %s: %v", o.String(), e), true)
 							}
 						}()
+						current[i].Store(o.String())
 						inv := clock.Add(1)
 						res := o.run()
 						resp := clock.Add(1)
+						current[i].Store("")
 						if !heavy {
 							recs[i] = append(recs[i], rec{i, inv, resp, o, res})
 						}
@@ -972,12 +1025,36 @@ func TestConc(t *testing.T) {
 		done := make(chan struct{})
 		go func() { wg.Wait(); close(done) }()
 		close(startGate)
-		select {
-		case <-done:
-		case <-time.After(20 * time.Second):
-			fmt.Fprintf(w, "R %d %s %d %d\nX watchdog: operations did not complete within 20 s (deadlock?)\nE\n", round, impl, m, ngor)
-			w.Flush()
-			t.Fatalf("round %d: operations did not complete (deadlock?)", round)
+		// progress watchdog: the stamp counter moves with every operation; no movement for stuckAfter = stuck
+		last, lastMove := clock.Load(), time.Now()
+	wait:
+		for {
+			select {
+			case <-done:
+				break wait
+			case <-time.After(200 * time.Millisecond):
+				if c := clock.Load(); c != last {
+					last, lastMove = c, time.Now()
+				} else if time.Since(lastMove) > stuckAfter {
+					var inflight []string
+					for i := range current {
+						if v := current[i].Load(); v != nil && v.(string) != "" {
+							inflight = append(inflight, fmt.Sprintf("g%d:[%s]", i, v.(string)))
+						}
+					}
+					fmt.Fprintf(w, "R %d %s %d %d\nX watchdog: no operation completed for %v; stuck: %s (a lock is still held: deadlock)\nE\n", round, impl, m, ngor, stuckAfter, strings.Join(inflight, " "))
+					w.Flush()
+					t.Fatalf("round %d: operations stuck (deadlock?): %v", round, inflight)
+				}
+			}
+		}
+		lastOps = lastOps[:0]
+		for _, pr := range progs {
+			for _, o := range pr {
+				if len(lastOps) < 24 && (o.kind == "reg" || o.kind == "unreg" || o.kind == "teardown") {
+					lastOps = append(lastOps, o.String())
+				}
+			}
 		}
 		fmt.Fprintf(w, "R %d %s %d %d\n", round, impl, m, ngor)
 		us := make([]string, len(names))
@@ -992,13 +1069,7 @@ func TestConc(t *testing.T) {
 					fmt.Fprintf(w, "H %d %d %d %s => %s\n", r.g, r.inv, r.resp, r.op.String(), r.res)
 				}
 			}
-			nh := make([]string, len(names))
-			st := make([]string, len(names))
-			for i, n := range names {
-				nh[i] = nhStr(table.FibStrategyTable.FindNextHopsEnc(n.enc()))
-				st[i] = stratStr(table.FibStrategyTable.FindStrategyEnc(n.enc()))
-			}
-			fmt.Fprintf(w, "F nh %s\nF st %s\nF fib %s\nF sl %s\nF rib %s\n", strings.Join(nh, "|"), strings.Join(st, "|"), fibListing(), stratListing(), ribListing())
+			fmt.Fprint(w, finalObs(names))
 		}
 		fmt.Fprintf(w, "E\n")
 	}
